@@ -27,7 +27,7 @@ ANT = "chan/AntGain.tla"
 MODELS = ["general", "3gpp1", "freespace", "metis", "hata"]
 DEVS = ["FcRejectKeepsValue", "NSetterKeepsC", "FcSetterKeepsC", "ClampArrayOnly", "HataRejectAssigns", "ShadowAfterPolicy",
         "ZeroInArrayAsUnit", "PlotRestoresPolicyFromShadow", "PlotRaiseLeavesShadowOff",
-        "ClampLostInFortranLayout", "LinearArrayIgnoresRaise"]
+        "ClampLostInFortranLayout", "LinearArrayIgnoresRaise", "FlagsSharedAcrossObjects"]
 FID_FC = "C13-freespace-fc-reject-not-atomic"
 FID_Z = "C13-scalar-zero-distance-domain-error"
 FID_PLOT = "C13-plot-raise-leaves-shadow-off"
@@ -126,14 +126,16 @@ def model_cfg(model, tier, dev=(), emit=False, props=True, sel=0):
     defs = {k: tlc.tla(a[k]) for k in ("InitArgs", "NVals", "FcVals", "HbsVals", "HmsVals", "AreaVals", "WallVals", "ArrSets",
                                         "ShadowVals", "SigmaVals", "PlotIdx")}
     defs["Enc"] = tlc.tla(enc)
+    defs["ByClasses"] = tlc.tla(set(MODELS))
     defs["KMin"] = str(a["KMin"])
     defs["KMax"] = str(a["KMax"])
     defs["Dev"] = tlc.tla({d: (d in dev) for d in DEVS})
-    cfg = tlc.cfg_text(constants={"Model": tlc.tla(model), "DoEmit": tlc.tla(bool(emit)), "EmitSel": str(sel)},
+    cfg = tlc.cfg_text(constants={"Model": tlc.tla(model), "DoEmit": tlc.tla(bool(emit)), "EmitSel": str(sel),
+                                  "WithBy": tlc.tla(model in BY_MODELS[tier])},
                        defs=defs,
                        invariants=["TypeOK", "ParamsValid", "CConsistent", "PLisDoc", "Monotone", "InUnit", "Policy",
                                    "InverseId", "FriisClose", "ShadowRange", "LayoutIndependent", "LinearAgrees"],
-                       properties=["RejectLaw", "PlotPure"] if props else [])
+                       properties=["RejectLaw", "PlotPure", "BystanderLaw"] if props else [])
     return cfg, defs
 
 
@@ -898,15 +900,62 @@ def plot_step(model, o, e):
     return "plot", None
 
 
+BY_FIELDS = ("bph", "bpol", "bshadow")
+
+
+def mainkey(state):
+    """the object's own part of an emitted state (queries are emitted without a bystander and looked up by this)"""
+    return graph.key({k: v for k, v in state.items() if k not in BY_FIELDS})
+
+
+def by_step(by, e):
+    """a bystander action: (bystander model, object) after it"""
+    bm, b = by
+    if e["op"] == "ByConstruct":
+        bm = e["arg"]
+        a = {"general": dict(n=[3, 1], C=[50, 1], fc=fcr(1, 0)), "freespace": dict(n=[2, 1], C=[0, 1], fc=fcr(9, 2)),
+             "metis": dict(n=[0, 1], C=[0, 1], fc=fcr(9, 2))}.get(bm, None)
+        return bm, construct(bm, a)
+    if e["op"] == "BySetPol":
+        b.handle_small_distances_bool = bool(e["arg"])
+    else:
+        b.use_shadow_bool = bool(e["arg"])
+    return bm, b
+
+
+def by_bad(by, post):
+    """the bystander's own flags against the post-state"""
+    if by[1] is None or post.get("bph") != "live":
+        return []
+    b = by[1]
+    bad = []
+    if b.handle_small_distances_bool is not post["bpol"]:
+        bad.append(f"bystander ({by[0]}) handle_small_distances_bool is {b.handle_small_distances_bool!r}, expected {post['bpol']!r}")
+    if b.use_shadow_bool is not post["bshadow"]:
+        bad.append(f"bystander ({by[0]}) use_shadow_bool is {b.use_shadow_bool!r}, expected {post['bshadow']!r}")
+    return bad
+
+
 def run_edges(model, edges, qs, all_states=False):
     o = None
+    by = (None, None)
     okc = qc = 0
     viol = []
     with warnings.catch_warnings():
         warnings.simplefilter("ignore")
         for i, e in enumerate(edges):
-            before = behaviour(model, o) if (o is not None and e["out"] in ("raise", "plot", "plotraise")) else None
-            if e["op"] == "Plot":
+            before = behaviour(model, o) if (o is not None and e["out"] in ("raise", "plot", "plotraise", "by")) else None
+            bbefore = behaviour(by[0], by[1]) if (by[1] is not None and e["out"] != "by") else None
+            if e["out"] == "by":
+                # BystanderUntouched: a step of ANOTHER live object; the object under study keeps parameters and behaviour
+                by = by_step(by, e)
+                got, txt = "by", ""
+                if o is not None and behaviour(model, o) != before:
+                    viol.append({"step": i, "op": e["op"], "arg": e["arg"],
+                                 "what": f"BystanderUntouched: after {e['op']}({e['arg']}) on another live object ({by[0]}) the {model} object "
+                                         f"answers differently: {before} -> {behaviour(model, o)}"})
+                    break
+            elif e["op"] == "Plot":
                 got, txt = plot_step(model, o, e)
                 if txt:
                     viol.append({"step": i, "op": "Plot", "arg": e["arg"],
@@ -934,7 +983,9 @@ def run_edges(model, edges, qs, all_states=False):
                 viol.append({"step": i, "op": e["op"], "arg": e["arg"],
                              "what": f"{e['op']}({e['arg']}) {'raised ' + str(txt) if 'raise' in got else 'was accepted'}, expected {e['out']}"})
                 break
-            bad = compare_params(model, o, e["post"])
+            bad = (compare_params(model, o, e["post"]) if o is not None else []) + by_bad(by, e["post"])
+            if not bad and bbefore is not None and behaviour(by[0], by[1]) != bbefore:
+                bad = [f"BystanderUntouched: the other live object ({by[0]}) answers differently: {bbefore} -> {behaviour(by[0], by[1])}"]
             if bad:
                 v = {"step": i, "op": e["op"], "arg": e["arg"], "what": f"after {e['op']}({e['arg']}) [{got} {txt}]: " + "; ".join(bad)}
                 if model == "freespace" and e["op"] == "SetFc" and e["out"] == "raise" and bad == [
@@ -946,9 +997,9 @@ def run_edges(model, edges, qs, all_states=False):
                 viol.append(v)
                 break
             okc += 1
-            if all_states or i == len(edges) - 1:
+            if o is not None and (all_states or i == len(edges) - 1):
                 b0 = behaviour(model, o)
-                for q in qs.get(graph.key(e["post"]), ()):
+                for q in qs.get(mainkey(e["post"]), ()):
                     r = run_query(model, o, q)
                     if r:
                         viol.append({"step": i, "op": q["op"], "arg": {k: q.get(k) for k in ("k", "w", "ks", "ws")},
@@ -988,7 +1039,7 @@ def explore(ctx, model, r, depth, walks, walk_len, limit):
     seenq = set()
     for e in r.emitted:
         if e["kind"] == "q":
-            k = graph.key(e["pre"])
+            k = mainkey(e["pre"])
             ident = (k, graph.key({x: y for x, y in e.items() if x not in ("pre", "post", "exp")}))
             if ident not in seenq:
                 seenq.add(ident)
@@ -1023,7 +1074,7 @@ def finish_paths(ctx, model, g, qs, paths, ncover, res=None):
         ctx.trace_done()
         for v in pick(viol):
             case = {"model": model, "edges": g.path_edges(job[1]), "failing": v,
-                    "queries": {k: qs.get(k, []) for k in {graph.key(e["post"]) for e in g.path_edges(job[1])}}}
+                    "queries": {k: qs.get(k, []) for k in {mainkey(e["post"]) for e in g.path_edges(job[1])}}}
             if v.get("finding"):
                 ctx.finding(v["finding"], f"{model}: {v['what']}", case)
             else:
@@ -1155,7 +1206,9 @@ def ant_cfg(tier, dev=False, emit=True):
 
 
 # ------------------------------------------------------------------------------- the check
-REFUTE = {"ClampLostInFortranLayout": "general", "LinearArrayIgnoresRaise": "general", "ZeroInArrayAsUnit": "general", "PlotRestoresPolicyFromShadow": "3gpp1", "PlotRaiseLeavesShadowOff": "3gpp1",
+# instances that carry a bystander object (a second live object of any class); the others would only multiply states
+BY_MODELS = {"quick": ("general", "3gpp1", "metis"), "thorough": ("general", "3gpp1", "metis", "freespace")}
+REFUTE = {"FlagsSharedAcrossObjects": "3gpp1", "ClampLostInFortranLayout": "general", "LinearArrayIgnoresRaise": "general", "ZeroInArrayAsUnit": "general", "PlotRestoresPolicyFromShadow": "3gpp1", "PlotRaiseLeavesShadowOff": "3gpp1",
           "ShadowAfterPolicy": "3gpp1", "FcRejectKeepsValue": "freespace", "NSetterKeepsC": "freespace", "FcSetterKeepsC": "freespace",
           "ClampArrayOnly": "general", "HataRejectAssigns": "hata"}
 
@@ -1211,8 +1264,8 @@ def run(ctx):
         for e in runs[m].emitted:
             a = e["op"] if e["kind"] == "set" else "Q" + e["op"]
             ctx.actions[a] = ctx.actions.get(a, 0) + 1
-        plan[m] = explore(ctx, m, runs[m], depth, 1000 if th else 60, 10 if th else 8, 10000 if th else 1500)
-    ctx.require_actions(["Construct", "Plot", "SetPol", "SetShadow", "SetSigma", "SetN", "SetFc", "SetHbs", "SetHms", "SetArea", "QPLdB", "QPL", "QPLdBArr",
+        plan[m] = explore(ctx, m, runs[m], depth, 1000 if th else 50, 10 if th else 8, 10000 if th else 1200)
+    ctx.require_actions(["Construct", "ByConstruct", "BySetPol", "BySetShadow", "Plot", "SetPol", "SetShadow", "SetSigma", "SetN", "SetFc", "SetHbs", "SetHms", "SetArea", "QPLdB", "QPL", "QPLdBArr",
                          "QWhichDistDB", "QWhichDist", "QFriis", "QRel"])
     n = 0
     jobs = [(m, p) for m in MODELS for p in plan[m][2]]
